@@ -141,6 +141,24 @@ func tail(l []string, k int) []string {
 	return l
 }
 
+// ---- D9: a transaction spending the same output twice is admitted (valued twice) and then blocks the pool
+func d9() (bool, string) {
+	s := settings()
+	w0, w1 := node.NewWallet(0), node.NewWallet(1)
+	n, gid := boot("n", s, w0, 1)
+	last := T0 + s.Interval
+	tx, _, err := node.MakeTx([]node.Spend{{gid, 0, w0}, {gid, 0, w0}}, []node.RawOutput{{w1.Address, false, 2*s.Genesis - 2*s.MinFee}}, last)
+	if err != nil {
+		return false, "build: " + err.Error()
+	}
+	n.Pool.AddTransaction(tx, "", "")
+	if len(n.Pool.Transactions()) != 1 {
+		return false, "transaction spending the same output twice was refused"
+	}
+	n.Pool.Validate(last + s.Interval)
+	return true, fmt.Sprintf("a transaction listing the same output twice and paying out %d from a single %d output was admitted to the pool", 2*s.Genesis-2*s.MinFee, s.Genesis)
+}
+
 // ---- D4a: a chained block is mutated through the shared pending-removal slice
 func d4a() (bool, string) {
 	s := settings()
@@ -262,6 +280,20 @@ func d6a() (p bool, d string) {
 	return false, "no panic"
 }
 
+// ---- D6d: null block entry in a served chain
+func d6d() (p bool, d string) {
+	defer recoverTo(&p, &d)
+	s := settings()
+	w0 := node.NewWallet(0)
+	n, _ := boot("n", s, w0, 3)
+	for _, evil := range []string{"[null]", "[null,null]"} {
+		evil := evil
+		n.Senders.Set([]application.Sender{&node.Sender{TargetValue: "evil", Blocks: func(uint64) ([]byte, error) { return []byte(evil), nil }}})
+		n.Chain.Update(T0 + 4*s.Interval)
+	}
+	return false, "no panic"
+}
+
 func mustJSON(v interface{}) string {
 	b, err := json.Marshal(v)
 	if err != nil {
@@ -336,6 +368,7 @@ func d7() (bool, string) {
 
 var witnesses = []witness{
 	{"D1", "C01", "C01/fee-sum-wraps-uint64", d1, false},
+	{"D9", "C11", "C11/same-output-twice-admitted", d9, false},
 	{"D2", "C05", "C05/producer-includes-spend-of-last-block-output", d2, false},
 	{"D4a", "C12", "C12/chained-block-mutated-through-shared-removal-slice", d4a, false},
 	{"D4b", "C07", "C07/three-removals-one-survives", d4b, false},
@@ -343,6 +376,7 @@ var witnesses = []witness{
 	{"D5", "C13", "C13/goroutine-leak-on-failing-neighbour", d5, false},
 	{"D5b", "C13", "C13/goroutine-leak-on-late-neighbour", d5b, false},
 	{"D6a", "C14", "C14/null-transaction-in-served-block-panics-update", d6a, false},
+	{"D6d", "C14", "C14/null-block-in-served-chain-panics-update", d6d, false},
 	{"D6b", "C14", "C14/transaction-without-outputs-panics-next-tick", d6b, false},
 	{"D6c", "C14", "C14/null-transaction-request-kills-process", d6c, true},
 	{"D7", "C16", "C16/deadlock-addresses-registry-synchronize-copy", d7, true},
